@@ -119,7 +119,18 @@ def gen_case(rng, fam):
                       'svc': [x or 0.25 for x in g._svc()] if rng.random() < 0.8 else [0]})
         prog = {'nodes': nodes, 'extra_edges': []}
         entries = [s['id'] for s in nodes if s['op'] == 'source']
-        if kind == 'zip':
+        if kind == 'zip' and n >= 1 and rng.random() < 0.3:
+            # ONE sequential, awaiting producer feeds all inputs and lets one input run ahead of the others by up to exactly
+            # maxsize elements: that is within the bound, so no emit may be held back (it would wait for ever)
+            items, lead = [], {e: 0 for e in entries}
+            for _ in range(rng.randrange(4, 16)):
+                ok = [e for e in entries if lead[e] - min(lead.values()) < n]
+                e = rng.choice(ok)
+                lead[e] += 1
+                items.append([rng.choice([0, 0, 0.25]), e, rng.randrange(5), 1])
+            prods = [items]
+            awaiting = True
+        elif kind == 'zip':
             cnt = rng.randrange(2, 9)
             prods = [[[rng.choice(aprogs.GAP_GRID), e, rng.randrange(5), 1] for _ in range(cnt)] for e in entries]
             awaiting = True
